@@ -1167,6 +1167,22 @@ def check_C07(tier, seed, replay=None):
         for tk in range(3):
             for loopk in range(3):
                 special.append(lambda gi, reck=reck, tk=tk, loopk=loopk: cross_rule_throw(gi, reck, tk, loopk))
+    # a repetition whose body consumes nothing and STOPS succeeding because of the state store: `e+` / `e*` then end without
+    # having consumed anything and what follows starts at the same offset (e+ is nullable when e is)
+    def stateful_rep(gi, repk, predk, tailk):
+        g = _G(gi)
+        body = g.seq([g.state("inc", "x", 1), g.pred(predk == 1, "eq", "x", 1 if predk == 0 else 2)])      # succeeds exactly once
+        rep = g.un(repk, body)
+        tail = [lambda: g.ref(1), lambda: g.seq([g.un("opt", g.lit([F.A])), g.ref(1)])][tailk]()
+        g.rules = [g.choice([g.seq([rep, tail, g.lit([F.A])]), g.lit([F.B])])]
+        g.disp = [""]
+        g.compute_args()
+        g.maydiverge = True
+        return g
+    for repk in ("plus", "star"):
+        for predk in (0, 1):
+            for tailk in (0, 1):
+                special.append(lambda gi, repk=repk, predk=predk, tailk=tailk: stateful_rep(gi, repk, predk, tailk))
     builders = special + builders
     groups = [b(i + 1) for i, b in enumerate(builders)]
     pigeon = P.build_pigeon()
